@@ -598,6 +598,22 @@ fn g9() -> Vec<crate::expect::Expect> {
         ("{1: 2}", "keys", ""),
     ];
     let mut out = Vec::new();
+    // `self` does not exist in a static method - nor in a function or lambda nested in one (it would have to
+    // come from somewhere: there is no receiver); the program is rejected.  In an instance method the same
+    // nestings see the receiver.
+    for nesting in ["return self;", "return || self;", "fn inner() { return self; } return inner;", "return || || self;", "var f = || { return self; }; return f;"] {
+        for (attr, is_static) in [("#[static] fn probe()", true), ("fn probe(self)", false)] {
+            let src = format!("#[constructor(new)]\nclass K {{\n  {} {{ {} }}\n}}\nprint(\"compiled\");\n", attr, nesting);
+            out.push(Expect {
+                family: "G9_self_in_static_methods",
+                request: proto::Request { op: "run".into(), snippets: vec![src], fuel: Some(1_000_000), ..Default::default() },
+                out: vec![if is_static { vec![] } else { vec!["compiled".to_string()] }],
+                end: vec![if is_static { "[module \"main\", line 3] Error at 'self': Cannot use 'self' in a static method.".to_string() } else { "ok".to_string() }],
+                describe: json!({"nesting": nesting, "static": is_static}),
+                nontrivial: true,
+            });
+        }
+    }
     for (base, m, args) in bases {
         let src = format!(
             "var D = type({base});\n#[constructor(new), derive(D)]\nclass Own {{\n  fn via_super(self) {{ return super.{m}({args}); }}\n  fn via_super_value(self) {{ var b = super.{m}; return b({args}); }}\n}}\n#[constructor(new)]\nclass Holder {{}}\nvar x = Own.new();\nfn show(f) {{ try {{ f(); print(\"completed\"); }} catch e {{ print(type(e)); }} }}\nshow(|| x.{m}({args}));\nshow(|| (x.{m})({args}));\nshow(|| {{ var b = x.{m}; return b({args}); }});\nshow(|| {{ var h = Holder.new(); h.f = x.{m}; return h.f({args}); }});\nshow(|| x.via_super());\nshow(|| x.via_super_value());\nprint(x.derives(D));\n",
@@ -628,7 +644,7 @@ pub fn run(ctx: &Ctx) -> Report {
     mcheck::fill_report(
         &mut report,
         &stats,
-        "G1: every hierarchy of depth 1-3 where each class independently has method m absent / plain / overriding through super.m() / through super.m taken as a value / through super.m() inside a lambda nested in the method, optionally n calling self.m(), and one of four constructor forms; probed with calls, bound values, wrong arity, unknown members, fields shadowing methods, type and derives on instances of the two most derived classes. G2: static methods and Self through class, instance and subclass instance. G3: classes in local scopes, captured variables, rebound superclass names. G4: every non-class value as superclass, and after each such failed declaration (which had methods of its own) further classes declared at top level and in a function, which have exactly their own and their ancestors' members; deriving built-in error classes. G5: construction, arity, invoke == get-then-call. G6: the receiver of super in instance, static and constructor methods under 5 nestings of the expression and 5 places the class can be declared in, through class, subclass and instances. G7: `derives`, the member every class has from Object, defined anew at each level of a hierarchy of depth 1-3 and found (call, value, super, self call) from that level and every level below. G8: sixteen kinds of value (named function, lambda, closure, bound methods, built-in functions, bound built-in methods, constructor and static method as values, class, instance, number, nil) stored in an instance field named like a method, in a fresh field and in a module attribute, and called with 0-2 arguments by method-call syntax, after taking the member, and through a variable. G9: a built-in method inherited by a program-declared class from a built-in class (eight methods of Vec, String, Tuple, HashMap), reached by call syntax, as a value, through a variable, through a field of another object, through super and through super taken as a value: the same TypeError every way. non-trivial = at least four observations.",
+        "G1: every hierarchy of depth 1-3 where each class independently has method m absent / plain / overriding through super.m() / through super.m taken as a value / through super.m() inside a lambda nested in the method, optionally n calling self.m(), and one of four constructor forms; probed with calls, bound values, wrong arity, unknown members, fields shadowing methods, type and derives on instances of the two most derived classes. G2: static methods and Self through class, instance and subclass instance. G3: classes in local scopes, captured variables, rebound superclass names. G4: every non-class value as superclass, and after each such failed declaration (which had methods of its own) further classes declared at top level and in a function, which have exactly their own and their ancestors' members; deriving built-in error classes. G5: construction, arity, invoke == get-then-call. G6: the receiver of super in instance, static and constructor methods under 5 nestings of the expression and 5 places the class can be declared in, through class, subclass and instances. G7: `derives`, the member every class has from Object, defined anew at each level of a hierarchy of depth 1-3 and found (call, value, super, self call) from that level and every level below. G8: sixteen kinds of value (named function, lambda, closure, bound methods, built-in functions, bound built-in methods, constructor and static method as values, class, instance, number, nil) stored in an instance field named like a method, in a fresh field and in a module attribute, and called with 0-2 arguments by method-call syntax, after taking the member, and through a variable. G9: a built-in method inherited by a program-declared class from a built-in class (eight methods of Vec, String, Tuple, HashMap), reached by call syntax, as a value, through a variable, through a field of another object, through super and through super taken as a value: the same TypeError every way; and `self` in five nestings of functions and lambdas inside a static method (rejected) and inside an instance method (accepted). non-trivial = at least four observations.",
         json!({"hierarchy_depth": 3, "per_class_choices": 40}),
     );
     report.assumptions = vec!["static methods and constructors are looked up on the class they were defined in and on instances, not through subclasses' class objects (Appendix A)".into()];
